@@ -39,8 +39,22 @@ ScalePrograms ==
      Cat(Lit(1), Cat(Lit(2), Cat(Lit(3), Cat(Lit(4), Cat(Lit(5), Cat(Lit(6), FmtN(6))))))),
      Or(Sub("?", Lit(1)), AltN(1, 9)), Cat(Cap(AltN(1, 24)), Cat(W("elem"), Opt(Inc)))}
 
+\* closures whose body changes a slot BELOW the top and restores what lies above it: the stacks that the closure
+\* has to tell apart differ in the bottom (middle) slot only (C10-m)
+SwapStep == Cat(W("swap"), Cat(Mod3, W("swap")))                  \* swap 1 add 3 mod swap
+RotStep  == Cat(W("rot"), Cat(Mod3, Cat(W("rot"), W("rot"))))     \* rot 1 add 3 mod rot rot
+BotSlotPrograms ==
+    {Cat(Lit(0), Cat(Lit(7), Star(SwapStep))), Cat(Lit(0), Cat(Lit(7), Plus(SwapStep))),
+     Cat(Lit(0), Cat(Lit(7), Cat(Lit(8), Star(RotStep)))), Cat(Lit(0), Cat(Lit(7), Cat(Lit(8), Plus(RotStep)))),
+     Cat(Lit(0), Cat(Lit(7), Cat(Lit(8), Star(SwapStep)))), Cat(Lit(0), Cat(Lit(0), Star(SwapStep))),
+     \* (the input sources put a value below whatever the program pushes: these change the source's own slot,
+     \* the bottom one of the whole stack)
+     Cat(Lit(7), Star(SwapStep)), Cat(Lit(7), Plus(SwapStep)), Cat(Lit(7), Cat(Lit(8), Star(RotStep))),
+     Star(SwapStep), Plus(RotStep)}
+
 LeavesOf(f) ==
     CASE f \in {"altor", "subif"} -> CoreLeaves
+      [] f = "botslot" -> BotSlotPrograms
       [] f = "closure" ->
            {Lit(0), Emp, Inc, IncLt3, Half, Mod3, W("dup"), W("drop")}
       [] f = "names" ->
@@ -81,6 +95,7 @@ UnaryOf(f) ==
       [] f = "shadow" -> {"bapply", "scopeL", "letL", "letFcall"}
       [] f = "simp" -> {"opt", "cap", "sub?", "fmts"}
       [] f = "scale" -> {}
+      [] f = "botslot" -> {}
 
 BinaryOf(f) ==
     CASE f = "altor" -> {"cat", "alt", "or"}
@@ -96,6 +111,7 @@ BinaryOf(f) ==
       [] f = "shadow" -> {"cat"}
       [] f = "simp" -> {"cat", "alt", "or"}
       [] f = "scale" -> {}
+      [] f = "botslot" -> {}
 
 MkUnary(u, a) ==
     CASE u = "cap"  -> Cap(a)
